@@ -12,6 +12,8 @@ Open Scope Z_scope.
 """
 
 LOG = []
+EARLY = []
+APPLIED = []
 
 
 class LogF:
@@ -91,7 +93,7 @@ def out_len(nd):
 
 def _out_len(nd):
     if nd.op in ('src', 'ksrc'): return len(nd.a[0])
-    if nd.op == 'map': return _out_len(nd.kids[0])
+    if nd.op in ('map', 'lazymap'): return _out_len(nd.kids[0])
     if nd.op == 'batch': return -(-_out_len(nd.kids[0]) // nd.a[0])
     if nd.op == 'concat': return _out_len(nd.kids[0]) + _out_len(nd.kids[1])
     if nd.op == 'zip': return _out_len(nd.kids[0])
@@ -103,6 +105,12 @@ def build(nd, ld):
     K = [build(k, ld) for k in nd.kids]
     if nd.op == 'src': return ld.new(list(nd.a[0]))
     if nd.op == 'map': return K[0].map(LogF(nd.sid, nd.a[0]))
+    if nd.op == 'lazymap':
+        # ds.apply(fn, lazy=True): the model sees the map it denotes; calls of fn itself are user code too and are counted apart
+        def ap(d, f=LogF(nd.sid, nd.a[0])):
+            APPLIED.append(nd.sid)
+            return d.map(f)
+        return K[0].apply(ap, lazy=True)
     if nd.op == 'filter': return K[0].filter(LogF(nd.sid, nd.a[0], pred=True))
     if nd.op == 'batch': return K[0].batch(nd.a[0])
     if nd.op == 'unbatch': return K[0].unbatch()
@@ -116,7 +124,7 @@ def coq_lds(nd):
     K = [coq_lds(k) for k in nd.kids]
     i = f'{nd.sid}%nat'
     if nd.op in ('src', 'ksrc'): return f'(LSrc {i} {F.coq_list([F.coq_val(v) for v in nd.a[0]])})'
-    if nd.op == 'map':
+    if nd.op in ('map', 'lazymap'):
         c = nd.a[0]
         fn = f'(deep_add {F.z(c[1])})' if c[0] == 'FAdd' else f'(deep_mul {F.z(c[1])})'
         return f'(LMap {i} {fn} {K[0]})'
@@ -138,7 +146,10 @@ def observe_iter(ds):
     """[(apps during this next(), value)], apps during the terminating next()"""
     segs = []
     it = iter(ds)
-    take_log()
+    early = take_log() + [('apply_fn', x) for x in APPLIED]
+    del APPLIED[:]
+    if early:
+        EARLY.append(list(early))        # creating the iterator alone must not run user code (k = 0 results consumed)
     while True:
         try:
             v = next(it)
@@ -185,19 +196,25 @@ def run_b(prop, tier, want_prof):
             ids = itertools.count(1)
             nd = gen(r, ids, r.choice([1, 2, 3, 4]))
             common.tick()
+            if not want_prof and r.random() < 0.12:
+                nd = Node('lazymap', next(ids), (r.choice([('FAdd', 1), ('FMul', 2)]),), [nd])      # a lazily applied stage on top
             take_log()
+            del EARLY[:]
+            del APPLIED[:]
             ds = build(nd, ld)
-            built = take_log()
+            built = take_log() + [('apply_fn', x) for x in APPLIED]
             if built:
                 failures.append(dict(kind='program', summary=f'constructing {coq_lds(nd)[:300]} already applied user functions: {built[:5]}', config={}))
             segs, fin = observe_iter(ds)
+            if EARLY:
+                failures.append(dict(kind='program', summary=f'iter() of {coq_lds(nd)[:300]} ran user functions before any result was requested: {EARLY[0][:5]}', config={}))
             # second iteration must behave the same (nothing cached / consumed)
             segs2, fin2 = observe_iter(ds)
             if repr((segs, fin)) != repr((segs2, fin2)):
                 failures.append(dict(kind='program', summary=f'second iteration of {coq_lds(nd)[:300]} applies user functions differently', config={}))
             gets = []
             n = out_len(nd)
-            if n is not None and all(x.op not in ('filter', 'unbatch') for x in walk(nd)):
+            if n is not None and all(x.op not in ('filter', 'unbatch', 'lazymap') for x in walk(nd)):
                 for i in sorted(set([0, n - 1, n, r.randint(0, n + 1)])):
                     if i < 0:
                         continue
